@@ -243,6 +243,12 @@ func (s *Syncer[H]) findTailHeight(ctx context.Context, oldTail, head H) (uint64
 		headersToStore := uint64(tailTimeDiff / s.Params.blockTime) //nolint:gosec
 		estimatedTailHeight = oldTail.Height() + headersToStore
 	}
+	if estimatedTailHeight < oldTail.Height() || estimatedTailHeight > head.Height() {
+		// the estimation fell out of the chain, e.g. wrapped around on a young or halted chain
+		// that has fewer headers than the window and the block time suggest,
+		// so there is nothing sane to estimate with, thus stick to the current tail
+		estimatedTailHeight = oldTail.Height()
+	}
 
 	log.Debugw(
 		"current tail is beyond pruning window",
